@@ -15,6 +15,7 @@ import (
 	"encoding/json"
 	"errors"
 	"fmt"
+	"math"
 	"os"
 	"path/filepath"
 	"strings"
@@ -88,7 +89,8 @@ var c15Writers = []string{
 }
 
 type c15Case struct {
-	perDagBudget bool // two Dags under one budget that each fits alone: a budget error is a violation
+	budget       int64 // the MaxTraversalLinks value in force (valid when a budget is set)
+	perDagBudget bool  // two Dags under one budget that each fits alone: a budget error is a violation
 	t            *mon.T
 	d            c15Desc
 	dag          *c15Dag
@@ -398,9 +400,21 @@ func (c *c15Case) v2Opts(budget int64, hasBudget bool) []carv2.Option {
 		o = append(o, carv2.WithTraversalPrototypeChooser(c15PBChooser))
 	}
 	if hasBudget {
-		o = append(o, carv2.MaxTraversalLinks(uint64(budget)))
+		o = append(o, carv2.MaxTraversalLinks(c.budgetArg(budget)))
 	}
 	return o
+}
+
+// budgetArg is the value handed to MaxTraversalLinks (a uint64): the budget modes at the top of the
+// range mean "no limit in practice"; the oracle's own arithmetic stays within int64.
+func (c *c15Case) budgetArg(budget int64) uint64 {
+	switch c.d.Budget {
+	case "2^63":
+		return 1 << 63
+	case "max-uint64":
+		return math.MaxUint64
+	}
+	return uint64(budget)
 }
 
 func (c *c15Case) v2LinkOpt() string {
@@ -419,6 +433,12 @@ func (c *c15Case) okCover(api string, log [][]byte, hasBudget bool) {
 	}
 	if c15HasRepeat(log) {
 		t.Cover("ok-with-repeated-loads:" + api)
+	}
+	if hasBudget && !c.perDagBudget && int64(len(log))-1 > c.budget {
+		// the converse of a spurious budget error: a traversal that loaded more links than allowed
+		t.ViolateD(api+"/link-budget/not-enforced", c.detail(log, map[string]any{"budget": c.budget}),
+			"%s succeeded after %d link loads under MaxTraversalLinks=%d", api, len(log)-1, c.budget)
+		return
 	}
 	if hasBudget {
 		t.Cover("budget:sufficient")
@@ -451,6 +471,7 @@ func (c *c15Case) runV2(api string) {
 		}
 		budget, hasBudget = c15ResolveBudget(c.d.Budget, l)
 	}
+	c.budget = budget
 	opts := c.v2Opts(budget, hasBudget)
 	log := &c15Log{}
 	ls := c.dag.linkSystem(log)
@@ -695,15 +716,18 @@ func (c *c15Case) runRootSelective() {
 		opts = append(opts, carv1.TraverseLinksOnlyOnce())
 		linkOpt = "TraverseLinksOnlyOnce"
 	}
+	c.budget = budget
 	if hasBudget {
-		opts = append(opts, carv1.MaxTraversalLinks(uint64(budget)))
+		opts = append(opts, carv1.MaxTraversalLinks(c.budgetArg(budget)))
 	}
 	rootCid := c.dag.cidOf(c.dag.root)
 	dags := []carv1.Dag{{Root: rootCid, Selector: c.sel}}
+	dagIdx, dagSel := []int{c.dag.root}, []datamodel.Node{c.sel}
 	roots := [][]byte{c.dag.nodes[c.dag.root].cid}
 	if d.Root.TwoDags {
 		i := c.second()
 		all, _ := c15Selector(c.dag, "all", 0, 0)
+		dagIdx, dagSel = append(dagIdx, i), append(dagSel, all)
 		dags = append(dags, carv1.Dag{Root: c.dag.cidOf(i), Selector: all})
 		roots = append(roots, c.dag.nodes[i].cid)
 		t.Cover("root:two-dags")
@@ -734,6 +758,29 @@ func (c *c15Case) runRootSelective() {
 		} else {
 			class := linkOpt + "+" + c15Shape(lg)
 			_, good := c.checkPayload(api, class, buf.Bytes(), roots, lg)
+			if good && !hasBudget {
+				// every Dag is traversed in its own right: what a traversal of (root, selector) loads, Dag by
+				// Dag, must have been loaded here — also when an earlier Dag already emitted a later Dag's root
+				loaded := map[string]bool{}
+				for _, k := range lg {
+					loaded[string(k)] = true
+				}
+				for di, dg := range dagIdx {
+					ref, rerr := c15RefLoads(c.dag, dg, dagSel[di], d.Root.Once, c15PBChooser)
+					if rerr != nil {
+						break // partial DAGs: the reference walk has no lenient loader
+					}
+					for _, k := range ref {
+						if !loaded[string(k)] {
+							t.ViolateD(api+"/"+class+"/dag-not-fully-traversed", c.detail(lg, map[string]any{"dag": di, "missing": fmt.Sprintf("%x", k)}),
+								"%s: a traversal of Dag %d (its root, its selector) loads a block that was never loaded and is not in the output", api, di)
+							good = false
+							break
+						}
+					}
+					t.Cover("dags-compared-with-a-reference-walk")
+				}
+			}
 			if good {
 				good = c.checkCallbacks(api, class, buf.Bytes(), cbs, lg)
 				writeOut, writeOK = buf.Bytes(), true
@@ -963,7 +1010,7 @@ func genC15(g *mon.G) {
 	dpads := []uint64{0, 0, 1, 7, 1413, 4096, 4097, 8141, 12289}
 	ipads := []uint64{0, 0, 1, 1024, 4097, 10000}
 	sels := []string{"all", "all", "all", "all", "depth", "depth", "depth", "fields", "fields", "fields+all"}
-	budgets := []string{"exact", "minus1", "half", "ample", "zero"}
+	budgets := []string{"exact", "minus1", "half", "ample", "zero", "2^63", "max-uint64", "max-int64"}
 	for i := 0; i < n; i++ {
 		d := c15Desc{Seed: r.Int63(), Sel: sels[r.Intn(len(sels))]}
 		if d.Sel == "depth" {
